@@ -691,3 +691,96 @@ def rule_index_lists_validated(ctx, cfg='prod-all', table=INDEX_LISTS):
             yield Ob('RF-L', '%s#not-against:%s<len(%s)' % (body.path, ilist, m2), not wrong,
                      '`%s` is not bounded by the length of the unrelated list `%s`' % (ilist, m2), body.span,
                      fact={'element_symbols': sorted(es), 'other_length_symbols': sorted(l2)}, expected='no such bound')
+
+
+# ---------------------------------------------------------------------------------- decoder input integrity
+ASSIGN_OPS = ('BitAndAssign::bitand_assign', 'BitOrAssign::bitor_assign', 'BitXorAssign::bitxor_assign', 'ShlAssign::shl_assign', 'ShrAssign::shr_assign',
+              'AddAssign::add_assign', 'SubAssign::sub_assign', 'MulAssign::mul_assign', 'DivAssign::div_assign', 'RemAssign::rem_assign', 'Not::not',
+              '::reverse', '::swap', '::fill', '::rotate_left', '::rotate_right', '::sort', '::make_ascii_lowercase', '::make_ascii_uppercase')
+
+
+def decoder_params(ctx, cfg, scope):
+    """{(function, parameter local)}: octet parameters that reach a checked constructor, directly or through another such parameter"""
+    from dep import strip
+    prog, eng = ctx.prog(cfg), ctx.eng(cfg)
+    D = set()
+    changed = True
+    rounds = 0
+    while changed and rounds < 6:
+        changed = False
+        rounds += 1
+        for p, b in prog.bodies.items():
+            if b.from_expansion or not p.startswith(scope) or b.kind == 'Closure':
+                continue
+            fd = eng.fndep(p)
+            for bi, t in b.calls():
+                cal = t.get('callee') or ''
+                tgt = local_target(eng, t)
+                sinks = []
+                if cal in CHECKED:
+                    sinks = [0]
+                elif tgt is not None:
+                    sinks = [k - 1 for (f, k) in D if f == tgt and k - 1 < len(t['args'])]
+                for ai in sinks:
+                    a = t['args'][ai]
+                    if a['k'] not in ('copy', 'move'):
+                        continue
+                    for at in fd.read_op(a):
+                        st = strip(at)
+                        if st[0] == 'p' and at[0] not in ('len', 'narrow'):
+                            ty = b.local_ty(st[1]).replace('&mut ', '').lstrip('&').strip()
+                            if ty.startswith(('[u8', 'std::vec::Vec<u8')) and (p, st[1]) not in D:
+                                D.add((p, st[1]))
+                                changed = True
+    return D
+
+
+def rule_decoder_input_integrity(ctx, cfg='prod-all', scope=('bbsplus::', 'utils::util::bbsplus_utils', 'utils::message::bbsplus_message')):
+    """The octets a checked constructor judges are the caller's octets: a local buffer that is handed to a checked constructor (or to a decoder
+    that hands it on) is filled by copying only - no element of it is computed (`buf[0] &= mask`, `buf[i] = x ^ y`, reverse / swap / fill).
+    Otherwise several encodings decode to one value (non-canonical forms accepted) or a different value is validated than the one supplied."""
+    prog, eng = ctx.prog(cfg), ctx.eng(cfg)
+    D = decoder_params(ctx, cfg, scope)
+    n = 0
+    for p, b in sorted(prog.bodies.items()):
+        if b.from_expansion or not p.startswith(scope) or b.kind == 'Closure':
+            continue
+        fd = eng.fndep(p)
+        seen = set()
+        for bi, t in b.calls():
+            cal = t.get('callee') or ''
+            tgt = local_target(eng, t)
+            sinks = [0] if cal in CHECKED else ([k - 1 for (f, k) in D if f == tgt and k - 1 < len(t['args'])] if tgt else [])
+            for ai in sinks:
+                a = t['args'][ai]
+                if a['k'] not in ('copy', 'move'):
+                    continue
+                root = fd.resolve_place(a['pl'])[0]
+                if fd.is_param(root) or root in seen:
+                    continue
+                ty = b.local_ty(root).replace('&mut ', '').lstrip('&').strip()
+                if not ty.startswith(('[u8', 'std::vec::Vec<u8')):
+                    continue
+                seen.add(root)
+                n += 1
+                bad = []
+                for bj, st in b.stmts():
+                    if st['k'] == 'assign' and st['dst'].get('p') and fd.resolve_place(st['dst'])[0] == root:
+                        rv = st['rv']
+                        src = None
+                        if rv['k'] in ('binop', 'unop') or (rv['k'] == 'cast' and rv.get('ck') == 'IntToInt'):
+                            bad.append('L%s element computed by %s' % (st.get('line'), rv.get('op') or rv['k']))
+                        elif rv['k'] == 'use' and rv['op']['k'] in ('copy', 'move') and not rv['op']['pl'].get('p'):
+                            d = [x for x in fd.defs.get(rv['op']['pl']['l'], [])]
+                            if len(d) == 1 and d[0][0] == 'assign' and d[0][2]['rv']['k'] in ('binop', 'unop'):
+                                bad.append('L%s element computed by %s' % (st.get('line'), d[0][2]['rv'].get('op')))
+                for bj, t2 in b.calls():
+                    c2 = t2.get('callee') or ''
+                    if c2.endswith(ASSIGN_OPS) and t2['args'] and t2['args'][0]['k'] in ('copy', 'move') and fd.resolve_place(t2['args'][0]['pl'])[0] == root \
+                            and b.local_ty(t2['args'][0]['pl']['l']).startswith('&mut'):
+                        bad.append('L%s %s' % (t2.get('line'), c2.split('::')[-1]))
+                yield Ob('RF-E', '%s#decoder-input:%s' % (p, b.local_name(root)), not bad,
+                         'the buffer handed to a checked constructor / decoder is filled by copying the input octets only', '%s L%s' % (b.file(), t.get('line')),
+                         fact={'buffer': b.local_name(root), 'handed_to': (tgt or cal).split('::')[-1], 'computed_writes': bad[:4]}, expected='copies only')
+    yield Ob('RF-E', 'crate#decoder-inputs', len(D) >= 6, 'octet parameters that reach a checked constructor', '', fact={'decoder_parameters': len(D), 'local_buffers_judged': n},
+             expected='>= 6', nontrivial=False)
